@@ -16,6 +16,7 @@ package acl
 
 import (
 	"errors"
+	"github.com/gobwas/glob"
 	"slices"
 	"strings"
 )
@@ -119,10 +120,33 @@ func RemoveDuplicateEntries(entries []string, allAlias string) (res []string) {
 	return
 }
 
+// globOfRule returns the glob pattern carried by a key rule (~, %RW~, %R~, %W~) or a pub/sub channel
+// rule (+&, -&) of ACL SETUSER.
+func globOfRule(str string) (string, bool) {
+	if (len(str) > 1 && str[0] == '~') || (len(str) > 4 && strings.EqualFold(str[0:4], "%RW~")) {
+		return str[strings.Index(str, "~")+1:], true
+	}
+	if len(str) > 3 && (strings.EqualFold(str[0:3], "%R~") || strings.EqualFold(str[0:3], "%W~")) {
+		return str[3:], true
+	}
+	if len(str) > 2 && str[1] == '&' && (str[0] == '+' || str[0] == '-') {
+		return str[2:], true
+	}
+	return "", false
+}
+
 func (user *User) UpdateUser(cmd []string) error {
 	// Refuse an empty username or rule before anything is modified.
 	if slices.Contains(cmd, "") {
 		return errors.New("the username and the rules of ACL SETUSER must not be empty")
+	}
+	// Refuse a key or channel pattern that does not compile before anything is modified.
+	for _, str := range cmd {
+		if pattern, ok := globOfRule(str); ok {
+			if _, err := glob.Compile(pattern); err != nil {
+				return errors.New("invalid glob pattern")
+			}
+		}
 	}
 
 	for _, str := range cmd {
